@@ -392,3 +392,27 @@ fn vk_c18_suffix_decided_for_every_move() {
         assert!(MADE == 1 && CHECK_ASKED == 1, "every move, castling included: the check suffix is decided by playing the move once on a scratch copy");
     }
 }
+
+//@ obligation: C18.canary.suffix
+//@ canary: true
+//@ timeout: 600
+#[kani::proof]
+#[kani::unwind(12)]
+#[kani::stub(std::fmt::format, fake_format)]
+fn vk_c18_canary_suffix() {
+    let player = geo::any_player();
+    let (from, to) = (geo::any_square(), geo::any_square());
+    kani::assume(from != to);
+    let mv = Move::quiet(from, to);
+    unsafe {
+        EXPECT_MV = Some(mv);
+        EXPECT_FROM = from.idx();
+        MADE = 0;
+        CHECK_ASKED = 0;
+        AMB_FIXED = None;
+        CHECK_ANSWER = kani::any();
+    }
+    let game = Game { board: Board { mover: Piece::new(player, PieceKind::Knight) }, player, is_copy: false, moved: false };
+    let _text = format_move__body(&game, mv);
+    assert!(unsafe { MADE } == 0); // must FAIL: the move is played on the scratch copy
+}
